@@ -538,3 +538,14 @@ Proof.
   destruct (get i (oi o)) as [x|]; [|cbn; discriminate]. destruct H as (x' & -> & L). exact L.
 Qed.
 
+
+Lemma fold_upd_get_thread (f : inst -> inst) l s th :
+  get_thread (fold_left (fun s i => upd_inst i f s) l s) th = get_thread s th.
+Proof. apply (fold_upd_inst_proj (fun s => get_thread s th)). intros. apply get_thread_upd_inst. Qed.
+Lemma fold_upd_ordered (f : inst -> inst) l s : ordered (fold_left (fun s i => upd_inst i f s) l s) = ordered s.
+Proof. apply (fold_upd_inst_proj ordered). intros. apply upd_inst_ordered. Qed.
+Lemma fold_upd_viss (f : inst -> inst) l s : viss (fold_left (fun s i => upd_inst i f s) l s) = viss s.
+Proof. apply (fold_upd_inst_proj viss). intros. apply upd_inst_viss. Qed.
+Lemma get_thread_sd_active (X : sys) v th : get_thread (X <| sd_active := v |>) th = get_thread X th.
+Proof. reflexivity. Qed.
+#[export] Hint Rewrite fold_upd_get_thread fold_upd_ordered fold_upd_viss get_thread_sd_active : sup.
